@@ -29,6 +29,8 @@ type faulty struct {
 	installed map[string]bool    // keys acknowledged as programmed (idempotent-delete fault)
 	lastGet   []*spb.GetResponse // previous Get result (stale-get fault)
 	hadGet    bool
+	streams   []*modWrap             // open Modify streams (results-broadcast fault)
+	first     *spb.SessionParameters // parameters of the first session that negotiated (mismatched-params fault)
 }
 
 func newFaulty(s *server.Server, kind string) *faulty {
@@ -71,6 +73,39 @@ var faultTable = []struct {
 		return has(tt, "Add to a nonexistent network instance")
 	}},
 	{"zero-election-id-accepted", "accepts election id zero", func(tt *compliance.TestSpec) bool { return has(tt, "Election - Sending election ID as zero") }},
+	{"referenced-delete-acked", "acknowledges the DELETE of a next-hop / group that is still referenced", func(tt *compliance.TestSpec) bool {
+		return has(tt, "Delete NH entry that is referenced", "Delete NHG entry that is referenced")
+	}},
+	{"multi-field-message-accepted", "accepts a ModifyRequest that populates more than one of parameters / election id / operations", func(tt *compliance.TestSpec) bool {
+		return has(tt, "Invalid session params and AFT operation in same ModifyRequest", "Invalid update election ID and SessionParams in same ModifyRequest", "Invalid updated election ID and AFTOperation in same ModifyRequest")
+	}},
+	{"results-broadcast", "sends operation results to every open session", func(tt *compliance.TestSpec) bool {
+		return has(tt, "AFTOperation responses must not be sent to other clients")
+	}},
+	{"mismatched-params-accepted", "accepts session parameters that differ from those of another live session", func(tt *compliance.TestSpec) bool {
+		return has(tt, "Election - Ensure client with differing parameters is rejected", "Election - Ensure that a client with mismatched parameters is rejected")
+	}},
+	{"invalid-ipv4-entry-acked", "acknowledges IPv4 entries with invalid content", func(tt *compliance.TestSpec) bool {
+		return has(tt, "Error: Empty NextHopGroup for the IPv4Entry", "Error: Invalid prefix for the IPv4Entry", "Error: Missing NextHopGroup for the IPv4Entry")
+	}},
+	{"get-wrong-network-instance", "tags every Get entry with another network instance", func(tt *compliance.TestSpec) bool {
+		return has(tt, "Get for installed NH -", "Get for installed NHG -", "Get for installed IPv4 Entry -", "Get for installed IPv6 Entry -", "Get for installed chain of entries")
+	}},
+	{"flush-one-flushes-all", "flushes every network instance when one is named", func(tt *compliance.TestSpec) bool {
+		return has(tt, "Flush non-default network instances preserves the default", "Flush to specific network instance is honoured")
+	}},
+	{"flush-election-unchecked", "does not compare the election id of a Flush", func(tt *compliance.TestSpec) bool {
+		return has(tt, "Flush from non-elected master returns error")
+	}},
+	{"flush-without-instance-accepted", "accepts a Flush that names no network instance", func(tt *compliance.TestSpec) bool {
+		return has(tt, "Flush without specifying network instance returns error")
+	}},
+	{"unsupported-params-accepted", "accepts unsupported persistence / redundancy combinations", func(tt *compliance.TestSpec) bool {
+		return has(tt, "Modify RPC Connection with invalid persist/redundancy parameters")
+	}},
+	{"unannounced-id-programmed", "programs operations stamped with an election id that was never announced", func(tt *compliance.TestSpec) bool {
+		return has(tt, "Election - Unannounced master operations are rejected")
+	}},
 }
 
 func has(tt *compliance.TestSpec, subs ...string) bool {
@@ -101,7 +136,21 @@ type modWrap struct {
 }
 
 func (f *faulty) Modify(ms spb.GRIBI_ModifyServer) error {
-	return f.inner.Modify(&modWrap{GRIBI_ModifyServer: ms, f: f, ops: map[uint64]*spb.AFTOperation{}})
+	m := &modWrap{GRIBI_ModifyServer: ms, f: f, ops: map[uint64]*spb.AFTOperation{}}
+	f.mu.Lock()
+	f.streams = append(f.streams, m)
+	f.mu.Unlock()
+	defer func() {
+		f.mu.Lock()
+		for i, o := range f.streams {
+			if o == m {
+				f.streams = append(f.streams[:i:i], f.streams[i+1:]...)
+				break
+			}
+		}
+		f.mu.Unlock()
+	}()
+	return f.inner.Modify(m)
 }
 
 func opKey(op *spb.AFTOperation) string {
@@ -133,6 +182,28 @@ func (m *modWrap) Recv() (*spb.ModifyRequest, error) {
 					m.GRIBI_ModifyServer.Send(&spb.ModifyResponse{SessionParamsResult: &spb.SessionParametersResult{Status: spb.SessionParametersResult_OK}})
 					continue
 				}
+			}
+		case "multi-field-message-accepted":
+			switch {
+			case in.Params != nil && (in.ElectionId != nil || len(in.Operation) > 0):
+				in = &spb.ModifyRequest{Params: in.Params}
+			case in.ElectionId != nil && len(in.Operation) > 0:
+				in = &spb.ModifyRequest{ElectionId: in.ElectionId}
+			}
+		case "mismatched-params-accepted":
+			if in.Params != nil {
+				f.mu.Lock()
+				if f.first == nil {
+					f.first = in.Params
+				} else {
+					in.Params = f.first
+				}
+				f.mu.Unlock()
+			}
+		case "unsupported-params-accepted":
+			if p := in.Params; p != nil && !(p.Redundancy == spb.SessionParameters_SINGLE_PRIMARY && p.Persistence == spb.SessionParameters_PRESERVE) {
+				m.GRIBI_ModifyServer.Send(&spb.ModifyResponse{SessionParamsResult: &spb.SessionParametersResult{Status: spb.SessionParametersResult_OK}})
+				continue
 			}
 		case "zero-election-id-accepted":
 			if in.ElectionId != nil && in.ElectionId.High == 0 && in.ElectionId.Low == 0 && in.Params == nil && len(in.Operation) == 0 {
@@ -173,6 +244,14 @@ func (m *modWrap) Recv() (*spb.ModifyRequest, error) {
 				if op.GetOp() == spb.AFTOperation_REPLACE {
 					op.Op = spb.AFTOperation_ADD
 				}
+			case "unannounced-id-programmed":
+				f.mu.Lock()
+				future := op.ElectionId != nil && op.ElectionId.High == 0 && op.ElectionId.Low > f.maxElec
+				f.mu.Unlock()
+				if future {
+					m.direct(op.GetId(), spb.AFTResult_RIB_PROGRAMMED)
+					continue
+				}
 			case "unknown-ni-acked":
 				if _, ok := f.inner.VerifRIB().NetworkInstanceRIB(op.GetNetworkInstance()); !ok {
 					m.direct(op.GetId(), spb.AFTResult_RIB_PROGRAMMED)
@@ -205,6 +284,38 @@ func (m *modWrap) Send(r *spb.ModifyResponse) error {
 		if len(r.GetResult()) > 0 {
 			r = &spb.ModifyResponse{Result: keep}
 		}
+	case "referenced-delete-acked", "invalid-ipv4-entry-acked":
+		var out []*spb.AFTResult
+		for _, ar := range r.GetResult() {
+			op := m.ops[ar.GetId()]
+			hit := false
+			if ar.GetStatus() == spb.AFTResult_FAILED && op != nil {
+				if f.kind == "referenced-delete-acked" {
+					hit = op.GetOp() == spb.AFTOperation_DELETE && (op.GetNextHop() != nil || op.GetNextHopGroup() != nil)
+				} else {
+					hit = op.GetOp() == spb.AFTOperation_ADD && op.GetIpv4() != nil
+				}
+			}
+			if hit {
+				out = append(out, &spb.AFTResult{Id: ar.GetId(), Status: spb.AFTResult_RIB_PROGRAMMED})
+			} else {
+				out = append(out, ar)
+			}
+		}
+		if len(out) > 0 {
+			r = &spb.ModifyResponse{Result: out}
+		}
+	case "results-broadcast":
+		if len(r.GetResult()) > 0 {
+			f.mu.Lock()
+			others := append([]*modWrap{}, f.streams...)
+			f.mu.Unlock()
+			for _, o := range others {
+				if o != m {
+					o.GRIBI_ModifyServer.Send(r)
+				}
+			}
+		}
 	case "election-off-by-one":
 		if r.GetElectionId() != nil {
 			r = &spb.ModifyResponse{ElectionId: &spb.Uint128{High: r.ElectionId.High, Low: r.ElectionId.Low + 1}}
@@ -227,7 +338,7 @@ func (g *getWrap) Send(r *spb.GetResponse) error {
 }
 
 func (f *faulty) Get(req *spb.GetRequest, gs grpc.ServerStreamingServer[spb.GetResponse]) error {
-	if f.kind != "get-drops-entry" && f.kind != "get-stale" {
+	if f.kind != "get-drops-entry" && f.kind != "get-stale" && f.kind != "get-wrong-network-instance" {
 		return f.inner.Get(req, gs)
 	}
 	w := &getWrap{GRIBI_GetServer: gs, f: f}
@@ -239,6 +350,12 @@ func (f *faulty) Get(req *spb.GetRequest, gs grpc.ServerStreamingServer[spb.GetR
 	case "get-drops-entry":
 		if len(out) > 0 {
 			out = out[:len(out)-1]
+		}
+	case "get-wrong-network-instance":
+		for _, r := range out {
+			for _, e := range r.GetEntry() {
+				e.NetworkInstance = "SOMEWHERE-ELSE"
+			}
 		}
 	case "get-stale":
 		f.mu.Lock()
@@ -258,8 +375,21 @@ func (f *faulty) Get(req *spb.GetRequest, gs grpc.ServerStreamingServer[spb.GetR
 }
 
 func (f *faulty) Flush(ctx context.Context, req *spb.FlushRequest) (*spb.FlushResponse, error) {
-	if f.kind == "flush-noop" {
+	switch f.kind {
+	case "flush-noop":
 		return &spb.FlushResponse{Timestamp: 1, Result: spb.FlushResponse_OK}, nil
+	case "flush-one-flushes-all":
+		if req.GetName() != "" {
+			req = &spb.FlushRequest{Election: req.Election, NetworkInstance: &spb.FlushRequest_All{All: &spb.Empty{}}}
+		}
+	case "flush-election-unchecked":
+		if req.GetId() != nil {
+			req = &spb.FlushRequest{NetworkInstance: req.NetworkInstance, Election: &spb.FlushRequest_Override{Override: &spb.Empty{}}}
+		}
+	case "flush-without-instance-accepted":
+		if req.GetNetworkInstance() == nil {
+			req = &spb.FlushRequest{Election: req.Election, NetworkInstance: &spb.FlushRequest_All{All: &spb.Empty{}}}
+		}
 	}
 	return f.inner.Flush(ctx, req)
 }
